@@ -127,3 +127,18 @@ META["C17"]["text"] += " Half of the accepted configurations are saved a second 
 META["C18"]["text"] += " A quarter of the admin cases use a store whose write takes 40 ms and fill a key, purge it straight away and ask again once the write must have landed."
 META["C19"]["text"] += " A quarter of the events are single requests that fail in the proxy (the server resets the connection while answering) followed by a phase judged without a forced health check."
 META["C20"]["text"] += " The reloads of the stress change the definition of the upstream in use (health check with a 15 ms answer, policy) every second time."
+# round 9
+META["C02"]["text"] += " A quarter of the scenarios run on the fault-injecting store (errors on read, write and delete) next to timeouts, cancels and purges."
+META["C03"]["text"] += " TestC03Histories draws bodies above the compress threshold and gzip/br clients, so that what was compressed for a response that must not be stored cannot surface in a hit."
+META["C05"]["text"] += " Each case also sends HEAD, GET, GET, HEAD on a third URL (the HEAD's bodiless answer must not become what GET clients get; this sequence found the defect repaired in 57f6a35)."
+META["C06"]["text"] += " The simulated histories of TestC06 draw bodies above the compress threshold too."
+META["C08"]["text"] += " TestC08SlowReload: a persisted record that left memory is asked for by several clients at once while the store is slow."
+META["C10"]["text"] += " TestC10Admin: admin purges (also under traffic) on stores whose delete or write is slow."
+META["C11"]["text"] += " TestC11Retained asks the garbage collector instead of the shards' counters: after N > S keys were stored, at most S (+4 slack) of the stored responses may still be reachable."
+META["C11"]["note"] += "; TestC11Retained relies on finalizers and repeated runtime.GC (up to 6 s) and allows a slack of 4 objects for stale stack slots"
+META["C12"]["text"] += " TestC12Malformed decodes a valid stream of the same format right after every malformed one (a decoder must not carry state over from a failed decode)."
+META["C13"]["text"] += " The cacheable cells that are served after a store round trip belong to a store-backed entry: what a new entry of the key finds in the store is what the table is checked on."
+META["C14"]["text"] += " TestC14Config gives locations 0-2 rewrite rules, some of which are no regular expressions; routing must not depend on them."
+META["C17"]["text"] += " A quarter of the applied configurations contain two locations sharing a name (accepted by the validation); every entry is probed."
+META["C19"]["text"] += " Every phase without a healthy server ends with three bursts of 32 concurrent GETs for one URL: each must get its 5xx within 12 s."
+META["C20"]["text"] += " 15% of the stress requests are HEAD."
